@@ -11,12 +11,26 @@ use std::panic::{AssertUnwindSafe, catch_unwind};
 
 pub struct Interner {
     pub map: HashMap<String, usize>,
+    /// true: the table is complete (second pass), unknown names are an error
+    pub fixed: bool,
 }
 
 impl Interner {
     fn id(&mut self, s: &str) -> usize {
+        if self.fixed {
+            return *self.map.get(s).expect("interner: name not collected in the first pass");
+        }
         let n = self.map.len();
         *self.map.entry(s.to_string()).or_insert(n)
+    }
+    pub fn new() -> Self {
+        Interner { map: HashMap::new(), fixed: false }
+    }
+    /// the same names, renumbered by the rank of their byte strings (the order of a BTreeMap<String, _>)
+    pub fn ranked(&self) -> Self {
+        let mut names: Vec<&String> = self.map.keys().collect();
+        names.sort();
+        Interner { map: names.into_iter().enumerate().map(|(i, n)| (n.clone(), i)).collect(), fixed: true }
     }
 }
 
@@ -139,8 +153,8 @@ impl<'a> Exporter<'a> {
         let i = match &e.inner {
             ExprEnum::True => "true".to_string(),
             ExprEnum::False => "false".to_string(),
-            ExprEnum::NumUnsigned(n, _) => format!("(nu {n})"),
-            ExprEnum::NumSigned(n, _) => format!("(ns {n})"),
+            ExprEnum::NumUnsigned(n, t) => format!("(nu {n} {})", ubits(t)),
+            ExprEnum::NumSigned(n, t) => format!("(ns {n} {})", sbits(t)),
             ExprEnum::Identifier(s) => format!("(id {})", self.names.id(s)),
             ExprEnum::ArrayLiteral(es) => {
                 let v: Vec<String> = es.iter().map(|e| self.expr(e)).collect();
@@ -304,8 +318,8 @@ impl<'a> Exporter<'a> {
             let v = match &d.value.0 {
                 ConstExprEnum::True => "true".to_string(),
                 ConstExprEnum::False => "false".to_string(),
-                ConstExprEnum::NumUnsigned(n, _) => format!("(nu {n})"),
-                ConstExprEnum::NumSigned(n, _) => format!("(ns {n})"),
+                ConstExprEnum::NumUnsigned(n, t) => format!("(nu {n} {})", ubits(t)),
+                ConstExprEnum::NumSigned(n, t) => format!("(ns {n} {})", sbits(t)),
                 _ => panic!("harness: computed const not exported"),
             };
             cs.push(format!("({} (e {} {} {}))", self.names.id(n), v, m, t));
@@ -474,7 +488,7 @@ pub fn job_program(job: &Sexp) -> String {
             let ast = catch_unwind(AssertUnwindSafe(|| {
                 let prg = garble_lang::check(&src).ok()?;
                 let cs = HashMap::new();
-                let mut ex = Exporter { prg: &prg, const_sizes: &cs, names: Interner { map: HashMap::new() } };
+                let mut ex = Exporter { prg: &prg, const_sizes: &cs, names: Interner::new() };
                 Some(ex.program("main"))
             }));
             let ast = match ast {
@@ -505,7 +519,7 @@ pub fn job_program(job: &Sexp) -> String {
     };
     // exported AST
     let ast = catch_unwind(AssertUnwindSafe(|| {
-        let mut ex = Exporter { prg: &base.program, const_sizes: &base.const_sizes, names: Interner { map: HashMap::new() } };
+        let mut ex = Exporter { prg: &base.program, const_sizes: &base.const_sizes, names: Interner::new() };
         let a = ex.program("main");
         let ret = ex.ty(&base.main.ty);
         let params: Vec<String> = base.main.params.iter().map(|p| ex.ty(&p.ty)).collect();
@@ -587,4 +601,50 @@ pub fn job_program(job: &Sexp) -> String {
         inss.join(" "),
         runs.join(" ")
     )
+}
+
+
+/// `lower` jobs (structural tie of coq/Compile/Lower.v): compile the source with the real compiler
+/// (SSA, dedup on and off) and print both circuits together with the typed AST, identifiers interned
+/// in rank order of their byte strings.
+pub fn job_lower(job: &Sexp) -> String {
+    let src = job.field("src").args()[0].text();
+    let mut out = String::new();
+    let mut base: Option<GarbleProgram> = None;
+    for dedup in [true, false] {
+        let name = if dedup { "dedup" } else { "nodedup" };
+        match compile_cfg(&src, false, dedup) {
+            Err(_) => return format!("(compile crash {})", quote(crate::last_panic().as_bytes())),
+            Ok(Err(e)) => {
+                let kind = if e.contains("TypeError") { "type" } else if e.contains("ParseError") { "parse" }
+                           else if e.contains("ScanError") { "scan" } else if e.contains("ZeroSizedInputs") { "zero-sized-inputs" }
+                           else { "compiler" };
+                return format!("(compile (err {kind}))");
+            }
+            Ok(Ok(p)) => {
+                match &p.circuit {
+                    CircuitType::Ssa(c) => out.push_str(&format!(" ({name} {})", crate::circ::fmt_ssa(c))),
+                    _ => return "(compile not-ssa)".into(),
+                }
+                if dedup {
+                    base = Some(p);
+                }
+            }
+        }
+    }
+    let base = base.unwrap();
+    let ast = catch_unwind(AssertUnwindSafe(|| {
+        let mut ex = Exporter { prg: &base.program, const_sizes: &base.const_sizes, names: Interner::new() };
+        let _ = ex.program("main");
+        let ranked = ex.names.ranked();
+        let mut ex = Exporter { prg: &base.program, const_sizes: &base.const_sizes, names: ranked };
+        ex.program("main")
+    }));
+    match ast {
+        Ok(a) => format!("(compile ok){out} (ast {a})"),
+        Err(e) => {
+            let msg = e.downcast_ref::<String>().cloned().unwrap_or_default();
+            format!("(compile ok) (export-failed {})", quote(msg.as_bytes()))
+        }
+    }
 }
